@@ -9,6 +9,7 @@ use std::marker::PhantomData;
 use std::os::fd::IntoRawFd;
 use std::os::unix::io::{AsRawFd, RawFd};
 
+use virtio_queue::QueueT;
 use vmm_sys_util::epoll::{ControlOperation, Epoll, EpollEvent, EventSet};
 use vmm_sys_util::event::EventNotifier;
 
@@ -208,8 +209,9 @@ where
                 .read_kick()
                 .map_err(VringEpollError::HandleEventReadKick)?;
 
-            // If the vring is not enabled, it should not be processed.
-            if !enabled {
+            // If the vring is not enabled, or has been stopped in the meantime, it should not
+            // be processed.
+            if !enabled || !vring.get_ref().get_queue().ready() {
                 return Ok(false);
             }
         }
